@@ -1363,7 +1363,7 @@ package ring
 //@   property C15
 //@   requires 0 <= r.level && r.level < len(r.SubRings)
 //@   requires forall(k, 0, r.level+1, 0 < r.SubRings[k].Modulus)
-//@   ensures len(rns) == r.level+1
+//@   ensures len(rns) == r.level+1 && fresh(rns)
 //@   ensures forall(k, 0, r.level+1, rns[k] == v % r.SubRings[k].Modulus)
 //@   loop 0 invariant 0 <= i && i <= r.level+1 && len(rns) == r.level+1 && fresh(rns)
 //@   loop 0 invariant forall(k, 0, i, rns[k] == v % r.SubRings[k].Modulus)
